@@ -25,7 +25,7 @@ struct X {
   W w;
   req_t reqs[VK_REQS]; int nreq = 0;
   ack_t acks[16]; int nacks = 0;
-  int nreconn = 0, nbad = 0, nearly = 0;
+  int nreconn = 0, nbad = 0, nearly = 0, npartial = 0;
   uint8_t first_tx[VK_REQS][48]; size_t first_tx_len[VK_REQS]; bool have_first[VK_REQS]; int tx_ok_before[VK_REQS];
 
   // ---- helpers over the packet log
@@ -72,6 +72,11 @@ struct X {
   void ev_write_done() {
     auto* s = vk::pending_write(); if (!s) vk_assume(0);
     int before = w.npk; bool was_early = s->delivered_early;
+    // the transport may take the write in two pieces (half-written packet); the composed write continues with the rest
+    if (!was_early && s->wdata.size() > 3 && npartial < 1 && vk_choose(2)) {
+      npartial++; w.finish_write(s, 3, {}); vk::drain(); vk_reach("partial-write");
+      s = vk::pending_write(); if (!s) { on_new_packets(before); return; }
+    }
     w.finish_write(s, s->wdata.size(), {}); vk::drain();
     if (was_early) for (int q = 0; q < VK_REQS; q++) if (early_req[q]) { tx_ok_before[q]++; early_req[q] = false; }
     if (was_early) for (int a = 0; a < nacks; a++) if (acks[a].epoch == w.epoch && acks[a].parked) { acks[a].parked = false; acks[a].consumed = true; }
@@ -147,7 +152,11 @@ struct X {
       if (nreconn >= 1) vk_assume(0);
       nreconn++;
       // a write in progress fails, or succeeds locally while its bytes are lost with the connection
-      if (auto* ps = vk::pending_write()) if (!ps->delivered_early && vk_choose(2)) { w.lose_write(ps); vk::drain(); for (int q = 0; q < nreq; q++) lost_tx[q] = true; vk_reach("write-lost-in-flight"); }
+      if (auto* ps = vk::pending_write()) if (!ps->delivered_early) {
+        int how = (int)vk_choose(3);
+        if (how == 1) { w.lose_write(ps); vk::drain(); for (int q = 0; q < nreq; q++) lost_tx[q] = true; vk_reach("write-lost-in-flight"); }
+        else if (how == 2 && ps->wdata.size() > 3) { for (size_t i = 0; i < 3 && w.rx_n < RXCAP; i++) w.rx[w.rx_n++] = (uint8_t)ps->wdata[i]; vk_reach("write-failed-after-partial-delivery"); }   // the broker got the first bytes, then the write fails
+      }
       w.drop_connection(); vk::drain(); for (int q = 0; q < VK_REQS; q++) early_req[q] = false;
     } else if (!w.attempt_in_progress()) vk_assume(0);      // the client itself left the connection (e.g. after DISCONNECT 0x81) and is reconnecting
     int before = w.npk;
